@@ -124,7 +124,7 @@ type zzRaw struct {
 
 func (w *zzW) raw(key []byte) zzRaw {
 	var r zzRaw
-	for _, e := range w.l.ents[w.db] {
+	for _, e := range w.l.all(w.db) {
 		k, ver, err := mvccDecode(e.k)
 		zzAssert(err == nil, "raw.key-decodes")
 		if !bytes.Equal(k, key) {
@@ -150,13 +150,13 @@ func (r zzRaw) lockedBy(start uint64) bool {
 	return r.lock != nil && r.lock.startTS == start
 }
 
-func (w *zzW) snapshot() []zzEnt { return w.l.ents[w.db] }
+func (w *zzW) snapshot() []zzEnt { return w.l.all(w.db) }
 
 // snapshotKey: the entries (lock and write records) of key k only.
 func (w *zzW) snapshotKey(k int) []zzEnt {
 	pre := codec.EncodeBytes(nil, zzKeys[k])
 	var out []zzEnt
-	for _, e := range w.l.ents[w.db] {
+	for _, e := range w.l.all(w.db) {
 		if bytes.HasPrefix(e.k, pre) {
 			out = append(out, e)
 		}
@@ -397,16 +397,27 @@ func (w *zzW) prefixN(depth int, keys ...int) {
 // keyAndPrefix picks the key a single-key law is about, builds a base state on
 // it and runs a prefix of arbitrary commands on that key: <= "depth" commands
 // from the empty store, <= "depth_b" commands on top of a non-empty base state.
-func (w *zzW) keyAndPrefix() int { return w.keyAndPrefixOps(false) }
+func (w *zzW) keyAndPrefix() int { return w.keyAndPrefixD(false, false) }
 
-func (w *zzW) keyAndPrefixOps(anyOp bool) int {
+func (w *zzW) keyAndPrefixOps(anyOp bool) int { return w.keyAndPrefixD(anyOp, false) }
+
+// keyAndPrefixDeep: the same with the deeper prefix bounds "depth_d" /
+// "depth_bd" (default: depth / depth_b), used by the laws that are cheap enough
+// to afford them in the thorough tier.
+func (w *zzW) keyAndPrefixDeep(anyOp bool) int { return w.keyAndPrefixD(anyOp, true) }
+
+func (w *zzW) keyAndPrefixD(anyOp, deep bool) int {
 	k := zzChoice("key", zzParam("lawkeys", 2))
 	menu := zzChoice("base", zzNBase)
 	w.base(k, menu, "base", anyOp)
+	d, db := zzParam("depth", 2), zzParam("depth_b", 1)
+	if deep {
+		d, db = zzParam("depth_d", d), zzParam("depth_bd", db)
+	}
 	if menu == zzBaseEmpty {
-		w.prefixN(zzParam("depth", 2), k)
+		w.prefixN(d, k)
 	} else {
-		w.prefixN(zzParam("depth_b", 1), k)
+		w.prefixN(db, k)
 	}
 	return k
 }
